@@ -51,3 +51,34 @@ def arg_bv(env, name, ctype, nbits, concrete):
 
 def fp_same(a, b):
     return z3.Or(a == b, z3.And(z3.fpIsNaN(a), z3.fpIsNaN(b)))
+
+
+def inexact_add(x, c, fmt=None):
+    """the addition x + c (c a python float or an FP term of x's format), performed in format fmt (default: x's own),
+    is not exact"""
+    srt = x.sort() if fmt is None else fmt
+    xs = x if fmt is None else z3.fpFPToFP(RNE, x, srt)
+    cs = c if isinstance(c, z3.ExprRef) else z3.FPVal(c, srt)
+    if isinstance(c, z3.ExprRef) and fmt is not None:
+        cs = z3.fpFPToFP(RNE, c, srt)
+    s_fmt = z3.fpAdd(RNE, xs, cs)
+    s_exact = z3.fpAdd(RNE, wide(xs), wide(cs))
+    return z3.Not(wide(s_fmt) == s_exact)
+
+
+X87 = z3.FPSort(15, 64)
+
+
+def signed_half(x, h):
+    """+h for x >= 0 else -h, as a term of x's format"""
+    srt = x.sort()
+    return z3.If(z3.fpGEQ(x, z3.FPVal(0.0, srt)), z3.FPVal(h, srt), z3.FPVal(-h, srt))
+
+
+def not_integral_at(x, E):
+    w = scale(wide(x), -E)
+    return z3.Not(z3.fpRoundToIntegral(RTZ, w) == w)
+
+
+def negative(x):
+    return z3.fpLT(x, z3.FPVal(0.0, x.sort()))
